@@ -170,7 +170,10 @@ CHECKS = {
         "assumptions": COMMON_ASSUME + ["pairs that the parser accepts in one order only are counted, not judged"],
     },
     "C18": {
-        "legs": legs_simple("props", "^TestC18$", 8, 16),
+        "legs": lambda tier: [{"pkg": "props", "run": "^TestC18$", "shards": 8 if tier == "quick" else 16},
+                              # the table generator (package main): sources copied verbatim from the tree under test, driven in-package
+                              {"pkg": "gtldupdate", "run": "^TestC18Generator$", "shards": 2 if tier == "quick" else 8,
+                               "gensrc": {"from": "cmd/zlint-gtld-update", "tmpl": "gtldgen", "name": "gtldupdate"}}],
         "rule": "the TLD table is read as data with go/parser; enumerated in both tiers: well-formedness of every entry, and HasValidTLD for every entry x {delegation, removal} x "
                 "{-1s,0,+1s} x 3 spellings x 3 zones; rapid: labels from table keys (any case), near misses, fixed internal names, random strings x domain shapes x instants (near a "
                 "boundary or uniform 1980-2040); certificates: home objects of e_dnsname_not_valid_tld with generated SAN/CN and notBefore, and (enumerated) 27 common names that are or only resemble IP literals (zones, brackets, ports, leading zeros, short forms); 16 extreme instants per table entry (year 1 ... 9999); the Unicode spellings of the table's xn-- keys (not in the table); bit-5 look-alikes of table keys (@ [ \\ ] ^ _ ` for letters); CN = case variant of a SAN entry. Oracle: integer model of the statement "
